@@ -1,10 +1,13 @@
 """Generators of overload families and calls (JSON-able specs) for C05/C06/C11."""
+import json
+
 from resolvelib import SILENT
 
 LATTICE_NAMES = ['Base', 'L', 'R', 'D', 'object', 'int', 'str', 'NoneType']
 # corpus indices by class (see resolvelib.CORPUS)
 INSTANCES = {'Base': [0, 1, 2, 3, 4], 'L': [1, 3, 4], 'R': [2, 3, 4], 'D': [3, 4], 'int': [5, 6, 7], 'str': [8, 9],
-             'object': list(range(12)), 'NoneType': [], 'bool': [7], 'float': [10]}
+             'object': list(range(12)), 'NoneType': [], 'bool': [7], 'float': [10],
+             'LL': [12, 14], 'E': [12], 'U': [13, 15], 'G': [13]}
 LITERAL = {5: 0, 6: 7, 7: True, 8: 'a', 9: 'bb', 10: 2.5}
 
 
@@ -26,6 +29,9 @@ def gen_type(rng, bias_lattice=0.6):
         return 'MappingRule'
     if r < bias_lattice + 0.395:
         return 'Number'
+    if rng.random() < 0.5:
+        # a PythonType subclass whose convert() turns some VALUES down after check() passed (resolvelib.Picky)
+        return ['picky', rng.choice(['D', 'L', 'Base', 'object']), False]
     return ['py', 'D', False]
 
 
@@ -197,6 +203,8 @@ def value_for(rng, ty):
     """corpus index (or None for Python None) that probably satisfies the type spec"""
     if rng.random() < 0.15:
         return rng.choice([None] + list(range(12)))
+    if isinstance(ty, list) and isinstance(ty[1], list):
+        ty = ['py', rng.choice(ty[1]), ty[2]]
     if isinstance(ty, list):
         inst = INSTANCES.get(ty[1], [])
         if ty[1] in ('Base', 'L', 'R', 'object') and rng.random() < 0.6:
@@ -375,18 +383,52 @@ def gen_history(rng, max_ctx=7):
         return defs[d if d < 1000 else dtag[d]].get('fname', 'f')
     dtag = {}
 
-    def a_call():
+    iface = rng.random() < 0.5          # this history makes most of its calls through YaqlInterface objects
+
+    def a_via():
+        """the host entry point of a call: the context itself, THE YaqlInterface of the context (kept for the whole
+        history), an interface derived from it with on(), one made with a receiver, or the `yaql_interface` injected
+        into a host function"""
+        r = rng.random()
+        if r > (0.85 if iface else 0.12):
+            return []
+        return [rng.choice(['yi', 'yi', 'yi', 'yi', 'yid', 'yir', 'inj', 'inj'])]
+
+    def twin(cspec):
+        """the same call with the receiver moved: f(x, ..) <-> x.f(..), or on another receiver"""
+        c = json.loads(json.dumps(cspec))
+        if 'recv' in c:
+            if rng.random() < 0.5 and c['recv'][0] == 'corpus':
+                c['args'] = [['v', c.pop('recv')]] + c['args']
+            else:
+                c['recv'] = ['corpus', rng.choice([0, 1, 2, 3, 4, 8, 5])]
+        else:
+            a = c['args'][0] if c['args'] else None
+            if a and a[0] in ('tick', 'wrap', 'var'):
+                c['recv'] = ['corpus', a[2]]
+                c['args'] = c['args'][1:]
+            elif a and a[0] == 'v' and a[1][0] == 'corpus':
+                c['recv'] = a[1]
+                c['args'] = c['args'][1:]
+            else:
+                c['recv'] = ['corpus', rng.choice([0, 1, 2, 3, 4, 8])]
+        return c
+
+    def a_call(i=None, via=None):
         # (not from a LinkedContext over a non-plain context: running ANY delegate there needs
         # create_child_context, which such a context does not have - outside resolution, see notes/C05.md)
         ok = [k for k in range(len(kinds)) if kinds[k] != 'linked*']
-        i = max(rng.choice(ok), rng.choice(ok))
-        if calls and rng.random() < 0.4:
+        if i is None:
+            i = max(rng.choice(ok), rng.choice(ok))
+        via = a_via() if via is None else via
+        if calls and rng.random() < (0.55 if iface else 0.4):
             old = rng.choice(calls)
-            return ['call', i if rng.random() < 0.6 else old[1], old[2], old[3]]
+            c = twin(old[2]) if rng.random() < (0.5 if iface else 0.1) else old[2]
+            return ['call', i if rng.random() < 0.6 or old[1] not in ok else old[1], c, old[3]] + via
         known = sorted({d if d < 1000 else dtag[d] for _, d in placed}) if placed and rng.random() < 0.8 else fids
         name = fname(rng.choice(known))
         fns = [defs[f] for f in known if fname(f) == name]
-        return ['call', i, gen_call(rng, [dict(fns=fns)], pc), name]
+        return ['call', i, gen_call(rng, [dict(fns=fns)], pc), name] + via
 
     def a_registration():
         used = {d if d < 1000 else dtag[d] for _, d in placed}
@@ -424,6 +466,12 @@ def gen_history(rng, max_ctx=7):
             st = a_call()
             steps.append(st)
             calls.append(st)
+            # histories THROUGH one interface family: the same name again from the same context, with / without
+            # receiver, on other receivers, right away
+            while st[4:] and rng.random() < 0.55 and len(steps) < 40:
+                st = a_call(st[1], st[4:] if st[4] == 'inj' or rng.random() < 0.6 else None)
+                steps.append(st)
+                calls.append(st)
         elif r < 0.91:
             if len(kinds) >= max_ctx:
                 continue
